@@ -9,3 +9,4 @@ pub mod nft;
 pub mod policies;
 pub mod sa;
 pub mod identity;
+pub mod misc;
